@@ -339,6 +339,33 @@ def host_case(asgi, form, name, pd, https, path, query):
     return 1
 
 
+def ws_host_case(secure, with_port, name, pd):
+    """ASGI WebSocket handshake requests carry the schemes ws / wss: default ports 80 / 443."""
+    for ch in name:
+        o = ord(ch)
+        if not (0x30 <= o <= 0x39 or 0x61 <= o <= 0x7a or ch in '-.'):
+            return 2
+    if not name or name[0] == '.':
+        return 2
+    port = _num(pd)
+    scheme = 'wss' if secure else 'ws'
+    default = 443 if secure else 80
+    if with_port:
+        if port is None:
+            return 2
+        text, ep = name + ':' + pd, port
+    else:
+        text, ep = name, default
+    scope = make_scope(path='/chat', headers=[('Host', text)], scheme=scheme, host='srv', port=default, extra={'type': 'websocket'})
+    req = falcon.asgi.Request(scope, None)
+    if req.host != name or req.port != ep or req.netloc != text or req.scheme != scheme:
+        return fail(lambda: '%s handshake, Host %r: host/port/netloc/scheme = %r/%r/%r/%r, expected %r/%r' % (
+            scheme, text, req.host, req.port, req.netloc, req.scheme, name, ep))
+    if req.uri != scheme + '://' + text + '/chat':
+        return fail(lambda: 'uri = %r' % (req.uri,))
+    return 1
+
+
 DATES = ['Sun, 06 Nov 1994 08:49:37 GMT', 'Sunday, 06-Nov-94 08:49:37 GMT', 'Sun Nov  6 08:49:37 1994', 'Thu, 01 Jan 1970 00:00:00 GMT',
          'Fri, 31 Dec 9999 23:59:59 GMT']
 
@@ -453,6 +480,9 @@ def partitions(tier, seed):
         B.append(_part('dates_%s' % tag, 'di: int, hi: int, casing: int', ['0 <= di < %d' % len(DATES), '0 <= hi <= 2', '0 <= casing <= 2'],
                        'date_case(%d, di, hi, casing)' % asgi, 200, 'HTTP-dates from a menu (3 RFC formats, epoch, year 9999) x 3 headers x name casing; '
                        'Last-Modified round trip'))
+        if asgi:
+            P.append(_part('ws_host', 'secure: bool, with_port: bool, name: str, pd: str', ['1 <= len(name) <= 2', 'len(pd) <= 2'],
+                           'ws_host_case(secure, with_port, name, pd)', 150, 'ASGI WebSocket handshake request (scheme ws/wss): host/port (default 80/443)/netloc/uri'))
         for bi, part in enumerate(B):
             if q and (bi + asgi) % 2:
                 continue
